@@ -208,6 +208,14 @@ def build_jobs(tier, seed0, d1=None, d2=None, two=True):
         jobs += [("hist", "one-object+setup'", (k,), h) for h in lv2]
     subs.append(("one object, alphabet {S,S',I,N,Z=iterate_n(0),P,F} (re-setup with a different script, empty batches): all histories to depth %d (%d) x %d kinds"
                  % (d2, npre2, len(k2)), npre2 * len(k2), len(lv2) * len(k2)))
+    dl = 5 if tier == "quick" else 6
+    lvl, nprel = lc.leaves("SINFGR", 1, dl)
+    kl = [KINDS[0], KINDS[3], KINDS[4]] if tier == "quick" else KINDS
+    for k in kl:
+        jobs += [("hist", "one-object+lifetime", (k,), h) for h in lvl]
+    subs.append(("one object, alphabet {S,I,N,F,G,R} (G: another engine object is created and garbage-collected without ever being set up; "
+                 "R: a new object is set up while the old one is still referenced, then the old one is dropped without finalize): all histories "
+                 "to depth %d (%d) x %d kinds" % (dl, nprel, len(kl)), nprel * len(kl), len(lvl) * len(kl)))
     d3 = 4
     lv3, npre3 = lc.leaves("SINPF", 2, d3)
     pairs = [(a, b) for a in KINDS for b in KINDS] if two else []
